@@ -12,7 +12,7 @@
         <<"D", run id, event index, tag, reason>>          (model drift / diagnostics)
    instead of stopping, so one pass serves all properties and the rest of every
    trace is still checked.  The last step prints <<"DONE", runs, events>>.        *)
-EXTENDS Naturals, Integers, Sequences, FiniteSets, TLC, Json, IOUtils, Lexer, RefPVM, GenCore
+EXTENDS Naturals, Integers, Sequences, FiniteSets, TLC, Json, IOUtils, Lexer, RefPVM, GenCore, EntropyModel
 
 Rec == ndJsonDeserialize(IOEnv.TRACE)
 NRuns == Len(Rec)
@@ -26,8 +26,10 @@ VARIABLES run,      \* index of the current generation in Rec (NRuns+1 when fini
           broken,   \* reference already reported an error in this run (later steps cascade)
           cnt,      \* counters of the run
           msgs,     \* findings of the step that led to this state
-          total     \* events consumed over all runs
-vars == <<run, ev, pos, lexd, st, gs, broken, cnt, msgs, total>>
+          total,    \* events consumed over all runs
+          cur,      \* EntropyModel: input bytes consumed so far (-1: prediction not applicable / given up)
+          edrift    \* drift findings of the entropy prediction for the step that led to this state
+vars == <<run, ev, pos, lexd, st, gs, broken, cnt, msgs, total, cur, edrift>>
 
 (* TLC re-evaluates LET definitions at every use; results that are used several
    times (lexer record, reference step, generator state) are therefore staged
@@ -54,7 +56,7 @@ Quiet(s) == [s EXCEPT !.cls = "", !.why = "", !.key = -1, !.kept = Len(s.stk)]
 
 Init == /\ run = 1 /\ ev = 0 /\ pos = 0
         /\ lexd = LexInit /\ st = StInit /\ gs = GsInit /\ broken = FALSE
-        /\ cnt = CntInit /\ msgs = <<>> /\ total = 0
+        /\ cnt = CntInit /\ msgs = <<>> /\ total = 0 /\ cur = -1 /\ edrift = <<>>
 
 V(r, k, prop, why) == <<"V", Rec[r].id, k, prop, why>>
 D(r, k, tag, why) == <<"D", Rec[r].id, k, tag, why>>
@@ -155,7 +157,7 @@ DriftFindings(r, k, e, c, g2) ==
        THEN <<D(r, k, "effect", "state change differs from GenModel effect")>> ELSE <<>>)
 
 ---------------------------------------------------------------------------
-StepEvent ==
+StepEvent0 ==
     /\ run <= NRuns
     /\ ev < Len(Rec[run].ev)
     /\ LET r == run
@@ -217,6 +219,47 @@ StepEvent ==
                                    !.frameAt = IF e.ph = PH_reserve THEN pos + 1 ELSE @]
     /\ UNCHANGED run
 
+(* EntropyModel: prediction of this event's decision from the input bytes, and the cursor
+   after it.  <<new cursor, drift findings>> *)
+Predict(r, k, e, c, inp, more) ==
+    LET mc == ModelCfg(c)
+        range == IF c.max > c.min THEN c.max - c.min ELSE 0
+    IN
+    IF e.ph = PH_begin THEN
+        IF Rec[r].hasinp = 1 /\ e.len = 0 THEN <<(IF c.P >= 4 THEN Skip(inp, 0, 1) ELSE 0), <<>>>> ELSE <<-1, <<>>>>
+    ELSE IF cur < 0 \/ cnt.skip THEN <<-1, <<>>>>
+    ELSE IF e.ph = PH_reserve THEN
+        LET coin == c.P >= 4 /\ Len(inp) >= 1 /\ inp[1] % 2 = 1 IN
+        IF coin = (e.len > pos) THEN <<cur, <<>>>>
+        ELSE <<-1, <<D(r, k, "frame-coin", "FRAME decision differs from the first input byte's low bit")>>>>
+    ELSE IF e.ph = PH_target THEN
+        LET d == Choose(inp, cur, range) IN
+        IF e.T = c.min + d[1] THEN <<d[2], <<>>>>
+        ELSE <<-1, <<D(r, k, "target", <<"target differs from EntropyModel", c.min + d[1], e.T>>)>>>>
+    ELSE IF e.ph = PH_body /\ ~more /\ cnt.pieces = 0 THEN
+        LET seq == EnabledSeqM(mc, gs.stk, DOMAIN gs.memo, gs.m)
+            d == Choose(inp, cur, Len(seq))
+            pred == IF seq = <<>> THEN -1 ELSE seq[d[1] + 1]
+            nk == Cardinality(DOMAIN gs.memo)
+            nk1 == Cardinality({x \in DOMAIN gs.memo : x < OneByte})
+        IN IF pred # e.op
+           THEN <<-1, <<D(r, k, "choice", <<"chosen opcode differs from EntropyModel (enabled list in table order, index drawn from the input)", pred, e.op>>)>>>>
+           ELSE IF e.op \in IntLikeOps /\ lexd'.known /\ lexd'.op # IntVariant(mc, inp, d[2])
+           THEN <<-1, <<D(r, k, "int-variant", <<"integer variant differs from EntropyModel", IntVariant(mc, inp, d[2]), lexd'.op>>)>>>>
+           ELSE <<EmitConsume(mc, e.op, inp, d[2], nk, nk1), <<>>>>
+    ELSE <<cur, <<>>>>
+
+(* the step proper plus the entropy prediction (its drift findings are reported with the
+   next state through `edrift`) *)
+StepEvent ==
+    /\ StepEvent0
+    /\ LET r == run
+           k == ev + 1
+           e == Rec[r].ev[k]
+           more == ev' = ev
+           p == Predict(r, k, e, Rec[r].cfg, Rec[r].inp, more)
+       IN cur' = p[1] /\ edrift' = p[2]
+
 (* after the last event of a run: whole-output checks, then the next run *)
 EndRun ==
     /\ run <= NRuns
@@ -240,6 +283,9 @@ EndRun ==
     /\ run' = run + 1 /\ ev' = 0 /\ pos' = 0
     /\ lexd' = LexInit /\ st' = StInit /\ gs' = GsInit /\ broken' = FALSE /\ cnt' = CntInit
     /\ UNCHANGED total
+    /\ cur' = -1
+    /\ edrift' = IF cur >= 0 /\ ~cnt.skip /\ Rec[run].res = 1 /\ Rec[run].consumed # cur
+                 THEN <<D(run, ev, "entropy-consumed", <<"input bytes consumed differ from EntropyModel", cur, Rec[run].consumed>>)>> ELSE <<>>
 
 Done == run = NRuns + 1
 
@@ -249,5 +295,6 @@ Spec == Init /\ [][Next]_vars
 
 (* reporting: evaluated once per new state, always TRUE *)
 Report == /\ (msgs = <<>> \/ PrintT(<<"MSGS", msgs>>))
+          /\ (edrift = <<>> \/ PrintT(<<"MSGS", edrift>>))
           /\ (~Done \/ PrintT(<<"DONE", NRuns, total>>))
 =============================================================================
